@@ -529,10 +529,7 @@ def oracle_history(req, out, raw=False):
             n = norm_name(unhx(g[5]))
             allowed = g[3] == "f" or targets.get(p, ("m", 0))[0] == "v"
             if ok:
-                if not raw:
-                    head = b"Changed bookmark:\n" if n in d else b"Created new bookmark:\n"
-                    if unhx(sf[1]) != head + b"@" + n + b" -> " + p + b"\n": return where + ": set printed %r" % unhx(sf[1])
-                d[n] = p
+                d[n] = p          # what set prints is a courtesy message, not fixed by the property
             elif allowed: return where + ": set failed (exit %s) although the target is a valid file or --force was given" % code
         elif g[0] == "u":
             n = norm_name(unhx(g[1]))
@@ -596,6 +593,33 @@ def oracle_history(req, out, raw=False):
 def nontrivial_history(req, out):
     return " 0:" in " " + out and len(out.split(" ")) >= 2
 
+def message_projection():
+    """what `bookmarks set / unset / clear` print on success, and what `bookmarks list` prints for an empty collection, are courtesy
+       messages whose wording no property fixes: they are left out of the comparison with the model (exit code and the
+       database read back are compared for every step; for `list` of a non-empty collection and for `info` the text is
+       compared in full, because it shows the map)."""
+    def f(req, line):
+        if not req.startswith("bm-history "):
+            return line
+        try:
+            _, ops = parse_history(req)
+        except Exception:
+            return line
+        steps = line.split(" ")
+        if len(steps) != len(ops):
+            return line
+        out = []
+        for o, st in zip(ops, steps):
+            sf = st.split(":")
+            if len(sf) == 3 and sf[0] == "0":
+                if o[:1] in ("s", "u", "c"):
+                    sf[1] = "*"
+                elif o[:1] == "l" and b" -> " not in unhx(sf[1]):
+                    sf[1] = "*"
+            out.append(":".join(sf))
+        return " ".join(out)
+    return f
+
 
 def suites():
     return [
@@ -609,7 +633,7 @@ def suites():
               rule="fixed + random paths over ., .., empty, Unicode, quote, backslash elements"),
         Suite("db-codec", gen_db, oracle=oracle_db, nontrivial=lambda r, o: o not in ("err", "crash", "-"),
               rule="random collections -> ToJson; edge and random (15% mutated) database texts -> FromJson"),
-        Suite("histories", gen_histories, oracle=oracle_history, nontrivial=nontrivial_history,
+        Suite("histories", gen_histories, oracle=oracle_history, nontrivial=nontrivial_history, project=message_projection,
               rule="histories of 1-40 set/unset/clear/list/info/total command lines over 2-6 names (with/without @, @@, Unicode, quotes, control characters, empty; every 10th history with malformed UTF-8) and 1-5 targets (valid/invalid/missing; spaces, quotes, non-ASCII; relative, absolute, unclean spellings); non-trivial = at least one command succeeded"),
         Suite("histories-raw", gen_histories_raw, oracle=lambda r, o: oracle_history(r, o, raw=True), model=False, nontrivial=nontrivial_history,
               rule="oracle-only: the raw database file after every command is read by Python's json module and compared with the dict"),
